@@ -22,6 +22,15 @@ CHECKS = {
  "C10": ("closed-form sensitivity oracle for every cross x quote variable at orders 1 and 2; history checker comparing the object after every operation with a fresh build from the model's latest quotes and bit-comparing state across refused updates",
          "Runtime oracle + offline-style history checking at the API boundary over sampled markets and operation sequences of length 1-30.",
          "DESIGN.md 3/C10", TRUST),
+ "C11": ("seeded curves x 5 rules x both constructors x at/around/between/beyond-node queries against closed forms on a linear-scan interval oracle; index_left on float lists",
+         "Runtime oracle over 10^4..10^6 generated curves (second-resolution timestamps, 1 s .. 10 y spacing, shuffled supply) with conditioning-aware tolerances.",
+         "DESIGN.md 3/C11", TRUST),
+ "C12": ("history checker over derivative-order switch sequences: a model of (node values as reference-AD numbers, current names) predicts node read-back, values and sensitivities after every switch",
+         "Runtime oracle + history model at the API boundary of the Python-facing Curve object; closed forms differentiated by reference AD inside the noise band.",
+         "DESIGN.md 3/C12", TRUST),
+ "C13": ("seeded well-conditioned systems of every entry type and pivot-forcing sparsity pattern; residual A x - b (normal equations for lsq) evaluated in reference-AD arithmetic for value and every first / second derivative; row-permutation invariance",
+         "Runtime oracle over 10^4..10^5 generated systems (n<=8, tall to 12x6); a residual check cannot be fooled by a bug in the solver's own multiplication because the residual is formed by the reference arithmetic.",
+         "DESIGN.md 3/C13", TRUST),
  "C17": ("complete enumeration of stored-list x requested-list pairs with a name-keyed lookup oracle; manifold product rule against reference AD",
          "Exhaustive over (stored list, requested list) on a small pool for gradient1/gradient2/gradient1_manifold (exact comparison), sampled for the product-rule identity.",
          "DESIGN.md 3/C17", TRUST),
